@@ -168,8 +168,9 @@ open SV.ProxySearch SV.ProxyCompose in
 /-- **sys_ingest_to_read_crash.**  Every shard's store went through its own write-path history `Hst s` - bulks, crashes
 at any byte of either file write, restarts (C01's alphabet) - and serves the active fraction its index worker rebuilt
 (`handed dec (Hst s)`).  Junction **J'** (the store's `Bulk` handler: a successful call is an acknowledged `Active.Append`
-of the payload's two blocks, not modelled): every replica call that returned success for this payload is an
-acknowledged bulk `blk` of that store's history, on a shard that is read.  Re-deliveries of an ID carry the same tokens.
+of the payload's two blocks, not modelled): for the shard ALL of whose replicas returned success
+(C09's full set; the per-success form is false for R >= 2 - Consistency/SysJunction.lean) the serving store's history has
+the payload as an acknowledged bulk `blk`, and the shard is one that is read.  Re-deliveries of an ID carry the same tokens.
 Then for every meta of the payload (first delivery or not, crash or not) and every token `field:value` of it with the MID
 inside the window: the query `field:value` is answered completely and unflagged, the meta's ID is in the ordered list
 (in the page when the page covers it), and every returned ID belongs to a stored matching document - which in turn
@@ -189,9 +190,9 @@ theorem sys_ingest_to_read_crash (dec : WPath.Bytes → List Collector.Meta) (hd
       ∃ r, Merge.searchDocs c (storeFracs [activeFrac (reached (handed dec (Hst s)))] (.leaf (.lit f [.text v])) from_ to_)
         from_ to_ (offset + size) = some r ∧ r.ids = ids.map keyOf)
     (coldT hotT : Replica.Tier) (oracle : List (List (Nat × Replica.Call) × List (Nat × Replica.Call)))
-    (hack : (Replica.storeDocuments coldT hotT oracle Replica.init).1 = true) (hS : hotT.S ≠ 0) (hR : 0 < hotT.R)
+    (hack : (Replica.storeDocuments coldT hotT oracle Replica.init).1 = true) (hS : hotT.S ≠ 0)
     (blk : WPath.Blk × WPath.Blk)
-    (J' : ∀ s r, (s, r) ∈ (Replica.storeDocuments coldT hotT oracle Replica.init).2.hotLog →
+    (J' : ∀ s, (∀ r, r < hotT.R → (s, r) ∈ (Replica.storeDocuments coldT hotT oracle Replica.init).2.hotLog) →
       s < hot.length ∧ blk ∈ WPath.ackedOf (Hst s))
     (m : Collector.Meta) (hm : m ∈ dec (WPath.enc blk.2))
     (hsame : ∀ s, ∀ b ∈ handed dec (Hst s), ∀ m' ∈ b, m'.id = m.id → m'.tokens = m.tokens)
@@ -210,10 +211,10 @@ theorem sys_ingest_to_read_crash (dec : WPath.Bytes → List Collector.Meta) (hd
     subst hfr
     exact (sys_i1_active _ (hd s) (hs s) (hg s) from_).1
   apply sys_served_found c f v from_ to_ hot hotArr coldArr hh offset size hlim rev hdesc
-    (fun s => [activeFrac (reached (handed dec (Hst s)))]) hok hmax hne hall hans coldT hotT oracle hack hS hR
+    (fun s => [activeFrac (reached (handed dec (Hst s)))]) hok hmax hne hall hans coldT hotT oracle hack hS
     (ActiveReach.toID m.id) hwin
-  intro s r hsr
-  obtain ⟨hlt, hacked⟩ := J' s r hsr
+  intro s hsr
+  obtain ⟨hlt, hacked⟩ := J' s hsr
   have hB := (sys_i1_replayed dec hdec (Hst s) (hwf s)).1 blk hacked
   obtain ⟨d, hdIn, hdid, hdtok⟩ := sys_i1_redelivered _ (hd s) (hs s) (hg s) from_ _ hB m hm (hsame s)
   exact ⟨hlt, d, hdIn, hdid, by rw [← hfv]; exact hdtok tok htok⟩
